@@ -3,6 +3,7 @@ import LinfaSpec.Proofs.MetricsRoc
 import LinfaSpec.Proofs.MetricsRoc2
 import LinfaSpec.Proofs.MetricsReal
 import LinfaSpec.Proofs.MetricsMore
+import LinfaSpec.Proofs.MetricsGlue
 
 /-!
 # C05 — every evaluation metric equals its definition recomputed from first principles
@@ -85,6 +86,58 @@ theorem cm_sum_confusion (pred truth : List L) (h : pred.length = truth.length) 
   refine ⟨_, confusion_eq pred truth h, ?_⟩
   rw [cm_sum _ (nodup_classes _ _) _ (pairs_in_classes pred truth)]
   simp [h]
+
+/-- the first clause at the level of the call: for equally long inputs every cell of the returned
+matrix is the number of samples predicted as the row's member whose truth is the column's member -/
+theorem confusion_cells_count (pred truth : List L) (h : pred.length = truth.length) :
+    ∃ m, confusion pred truth = some (classes pred truth, m) ∧
+      ∀ i j a b, (classes pred truth)[i]? = some a → (classes pred truth)[j]? = some b →
+        cell m i j = ((pred.zip truth).filter fun p => p.1 = a ∧ p.2 = b).length :=
+  ⟨_, confusion_eq pred truth h, fun i j a b hi hj =>
+    cm_cells_count _ (nodup_classes pred truth) _ i j a b hi hj⟩
+
+example : ([0, 1, 1] : List Nat).length = ([1, 1, 0] : List Nat).length := rfl
+
+/-- **cells sum, without the guard**: whatever the class list, the cells sum to the number of pairs
+whose two labels both occur in it — the counting loop silently skips the others (`flatten`) -/
+theorem cm_sum_dropped (cs : List L) (hnd : cs.Nodup) (pairs : List (L × L)) :
+    total (countLoop cs pairs) = (pairs.filter fun p => p.1 ∈ cs ∧ p.2 ∈ cs).length := by
+  rw [countLoop_filter, cm_sum cs hnd]
+  intro p hp
+  simpa using (List.mem_filter.mp hp).2
+
+example : total (countLoop [0, 1] [(0, 1), (2, 1), (1, 1), (0, 3)]) = 2 := by decide
+
+/-- **calling-form glue**: a receiver whose label set has exactly the members of its targets (every
+array, view and dataset form; a `CountedTargets` that was not mutated after counting) gives the
+matrix of the plain call -/
+theorem confusion_with_own_labels (lp pred truth : List L) (h : ∀ a, a ∈ lp ↔ a ∈ pred) :
+    confusionWith lp pred truth = confusion pred truth := by
+  unfold confusionWith confusion
+  rw [classes_congr lp truth pred truth (fun a => by simp only [List.mem_append, h a])]
+
+/-- a receiver whose cached label set covers its targets (possibly with further labels) still counts
+every sample; one whose cache lacks a label loses exactly the samples that carry it -/
+theorem confusion_with_labels_sum (lp pred truth : List L) (h : pred.length = truth.length) :
+    ∃ m, confusionWith lp pred truth = some (classes lp truth, m) ∧
+      total m = ((pred.zip truth).filter fun p => p.1 ∈ lp ∨ p.1 ∈ truth).length ∧
+      ((∀ a ∈ pred, a ∈ lp) → total m = pred.length) := by
+  refine ⟨countLoop (classes lp truth) (pred.zip truth), by simp [confusionWith, h], ?_, ?_⟩
+  · rw [cm_sum_dropped _ (nodup_classes lp truth)]
+    congr 1
+    apply List.filter_congr
+    intro p hp
+    have h2 : p.2 ∈ truth := (List.of_mem_zip hp).2
+    simp [mem_classes, h2]
+  · intro hcov
+    rw [cm_sum _ (nodup_classes lp truth)]
+    · simp [h]
+    · intro p hp
+      have := List.of_mem_zip hp
+      simp [mem_classes, this.2, hcov p.1 this.1]
+
+example : confusionWith [0] [0, 2, 0] [0, 0, 1] = some ([1, 0], [[0, 0], [1, 1]]) ∧
+    confusionWith [0, 2] [0, 2, 0] [0, 0, 1] = confusion [0, 2, 0] [0, 0, 1] := by decide
 
 /-- the diagonal counts the equal pairs, so **accuracy is the fraction of equal labels** -/
 theorem cm_diag_count (cs : List L) (hnd : cs.Nodup) (pairs : List (L × L))
@@ -795,6 +848,19 @@ theorem silhouette_sample_def (d : List (List α)) (labels : List Nat) (i li : N
     split
     · rename_i hba; rw [max_eq_left hba]
     · rename_i hba; rw [max_eq_right (le_of_lt (not_le.mp hba))]
+
+/-- **`a(x)` excludes the sample itself**: when the distance of sample `i` to itself is 0, the
+own-cluster accumulator is the sum of the distances to the *other* members of its cluster, and the
+divisor `count - 1` is their number -/
+theorem silhouette_a_excludes_self (d : List (List α)) (labels : List Nat) (i li : Nat)
+    (hrow : (d.getD i [])[i]? = some 0) (hl : labels[i]? = some li) :
+    totalDist d labels i li =
+      ((((d.getD i []).zip labels).eraseIdx i).filterMap fun (x, lj) => if lj == li then some x else none).sum ∧
+    labelCount labels li - 1 = ((labels.eraseIdx i).filter (· == li)).length :=
+  ⟨totalDist_excludes_self d labels i li hrow hl, labelCount_excludes_self labels i li hl⟩
+
+example : ([[0, 1, 4], [1, 0, 3], [4, 3, (0 : Rat)]].getD 1 [])[1]? = some 0 ∧ ([0, 0, 1] : List Nat)[1]? = some 0 := by
+  decide +kernel
 
 /-- **silhouette score**: 1 for a single cluster, otherwise the mean of the per-sample values -/
 theorem silhouette_def (d : List (List α)) (labels : List Nat) :
